@@ -9,6 +9,7 @@ from . import env, tlc
 from .core import Machinery
 
 NS = 3
+START = 40      # the virtual clock starts here so that older intervals exist from the beginning
 
 
 class FakeTime(object):
@@ -67,6 +68,8 @@ class AggRun(object):
     s['LOG_AGGREGATOR_MISSES'] = False
     self.clock = task.Clock()
     self.ftime = FakeTime()
+    self.ftime.now = float(START)
+    self.clock.advance(START)
     am.buffers.time = self.ftime
     clock = self.clock
 
@@ -160,7 +163,19 @@ def random_run(am, cfg, rng, nevents):
     for _ in range(nevents):
       x = rng.random()
       now = int(run.ftime.now)
-      if x < 0.55 and vid < 24:
+      if x < 0.12 and vid < 18:
+        # backfill burst: one recent point, then points for more than MAX+1 older intervals (any order)
+        s_ = rng.randint(1, NS)
+        F = cfg['F']
+        cur = now - now % F
+        ivs = [cur - k * F for k in range(1, cfg['M'] + 2 + rng.randint(1, 3)) if cur - k * F >= 0]
+        rng.shuffle(ivs)
+        order = [cur] + ivs if rng.random() < 0.7 else ivs + [cur]
+        for iv in order:
+          if vid < 24:
+            vid += 1
+            run.input(s_, iv + rng.randint(0, F - 1), vid)
+      elif x < 0.55 and vid < 24:
         vid += 1
         r = rng.random()
         if r < 0.5:
@@ -183,7 +198,7 @@ def random_run(am, cfg, rng, nevents):
       run.tick()
   finally:
     run.teardown()
-  return dict(kind='run', ev=run.ev, forwardAll=bool(cfg.get('forward_all', True)), maxts=int(run.ftime.now) + 3 * cfg['F'] + 2)
+  return dict(kind='run', start=START, ev=run.ev, forwardAll=bool(cfg.get('forward_all', True)), maxts=int(run.ftime.now) + 3 * cfg['F'] + 2)
 
 
 def scripted_run(am, cfg, script):
@@ -200,7 +215,7 @@ def scripted_run(am, cfg, script):
         run.tick()
   finally:
     run.teardown()
-  return dict(kind='run', ev=run.ev, forwardAll=bool(cfg.get('forward_all', True)), maxts=int(run.ftime.now) + 3 * cfg['F'] + 2)
+  return dict(kind='run', start=START, ev=run.ev, forwardAll=bool(cfg.get('forward_all', True)), maxts=int(run.ftime.now) + 3 * cfg['F'] + 2)
 
 
 def consts_of(cfg):
